@@ -582,6 +582,28 @@ def _dot(ex, a, b):
     shape = tuple(a.shape[:-1]) + tuple(b.shape[1:] if b.rank == 2 else ())
     dt = "cx" if "cx" in (a.dtype, b.dtype) else "real"
 
+    def _diag(x):
+        # a matrix made by numpy.diag(v) / numpy.eye(n) and not written to since
+        d = getattr(x, "diag_of", None)
+        return d[1] if (d is not None and x.rank == 2 and x.base is None and x.re is not None and x.re.eq(d[0])) else None
+    da, db = _diag(a), _diag(b)
+    if da is not None or db is not None:
+        # sum_k delta(i,k) v[i] B[k,..] = v[i] B[i,..]   and   sum_k A[..,k] delta(k,j) v[j] = A[..,j] v[j]
+        # (Lean lemma sum_kronecker; the index is in range because the cell is)
+        ex.used_models.add("lemma:sum_kronecker (product with a matrix made by numpy.diag / numpy.eye)")
+        ul = getattr(ex.registry, "auto_lemmas", None)
+        if ul is None:
+            ul = ex.registry.auto_lemmas = set()
+        ul.add("sum_kronecker")
+
+        def dcell(xs):
+            ia = list(xs[:a.rank - 1])
+            ib = list(xs[a.rank - 1:])
+            if da is not None:
+                return arith("*", da(ia[0]), sb.get([ia[0]] + ib))
+            return arith("*", sa.get(ia + [ib[0]]), db(ib[0]))
+        return lam_array(shape, dt, dcell, name="dot")
+
     def cell(xs):
         ia = list(xs[:a.rank - 1])
         ib = list(xs[a.rank - 1:])
@@ -703,6 +725,22 @@ def _install(M):
                 n_, d_ = num.arg(0), den.numerator_as_long()
                 return z3.If(n_ >= 0, n_ / d_, -((-n_) / d_))
         return z3.If(x >= 0, z3.ToInt(x), -z3.ToInt(-x))
+
+    @reg("round")
+    def _round(ex, a, k, l):
+        """round(x) without ndigits: an integer r with |x - r| <= 1/2 (which of the two at an exact tie is left open:
+        Python rounds ties to even; every consequence proved holds for either choice)"""
+        x = a[0]
+        if len(a) > 1 or k:
+            raise Unsupported("round with ndigits @%s" % l)
+        if V.sort_of(x) in ("int", "bool"):
+            return V.z3int(x) if is_z3(x) else int(x)
+        if not is_z3(x):
+            return round(x)
+        x = V.z3real(x)
+        r = fresh("round", z3.IntSort())
+        ex.assume(z3.And(2 * z3.ToReal(r) - 1 <= 2 * x, 2 * x <= 2 * z3.ToReal(r) + 1))
+        return r
 
     @reg("float")
     def _float(ex, a, k, l):
@@ -956,7 +994,9 @@ def _install(M):
     def _eye(ex, a, k, l):
         n = a[0]
         dt = _dtype_arg(k, (None, None))
-        return lam_array((n, n), dt, lambda xs: ite(compare("==", xs[0], xs[1]), 1, 0), name="eye")
+        r = lam_array((n, n), dt, lambda xs: ite(compare("==", xs[0], xs[1]), 1, 0), name="eye")
+        r.diag_of = (r.re, lambda i: 1)
+        return r
     M.table["numpy.identity"] = M.table["numpy.eye"]
 
     @reg("numpy.array")
@@ -1341,8 +1381,10 @@ def _install(M):
         snap = x.snapshot()
         if x.rank == 2:
             return lam_array((x.shape[0],), x.dtype, lambda xs: snap.get([xs[0], xs[0]]))
-        return lam_array((x.shape[0], x.shape[0]), x.dtype,
-                         lambda xs: ite(compare("==", xs[0], xs[1]), snap.get([xs[0]]), 0))
+        r = lam_array((x.shape[0], x.shape[0]), x.dtype,
+                      lambda xs: ite(compare("==", xs[0], xs[1]), snap.get([xs[0]]), 0))
+        r.diag_of = (r.re, lambda i: snap.get([i]))
+        return r
 
     @reg("numpy.linalg.eigh")
     def _eigh(ex, a, k, l):
